@@ -258,6 +258,8 @@ pub struct Gen {
   /// scripted operations that run before anything random (scenario modes)
   pub plan: std::collections::VecDeque<(Op, EnvS)>,
   pub mode: String,
+  /// the failing notification of the current operation cannot hide any membership change (drift mode)
+  pub harmless_quiet: bool,
   conns: BTreeMap<usize, GConn>,
   next_id: u32,
   next_conn: usize,
@@ -304,6 +306,7 @@ impl Gen {
       rng,
       cfg,
       plan: Default::default(),
+      harmless_quiet: false,
       mode: "random".into(),
       conns: BTreeMap::new(),
       next_id: 1,
@@ -597,6 +600,7 @@ impl Gen {
     if let Some(x) = self.plan.pop_front() {
       return x;
     }
+    self.harmless_quiet = false;
     let mut env = EnvS { ev_ok: true, ..Default::default() };
     if self.cfg.has_op(Operation::ForwardEvent) && self.rng.chance(1, 12) {
       env.ev_ok = false;
@@ -615,7 +619,7 @@ impl Gen {
     }
     let k = *self.rng.pick(&open);
     let c = self.conns[&k].clone();
-    let churn = self.mode == "churn";
+    let churn = self.mode == "churn" || self.mode == "drift";
     if self.rng.chance(1, if churn && c.phase == 2 { 10 } else { 45 }) {
       self.bump("close");
       return (Op::Close(k), env);
@@ -670,7 +674,27 @@ impl Gen {
           self.pre_auth_noise()
         }
       },
-      _ if churn => self.churn_req(&mut env, view, c.user.as_deref().unwrap_or("")),
+      _ if churn => {
+        let me = c.user.clone().unwrap_or_default();
+        let r = self.churn_req(&mut env, view, &me);
+        if self.mode == "drift" {
+          // a JOIN by a user who is in no channel fails in the modulator (rolled back; the requester is disconnected, its clean-up
+          // has nothing to announce): such failures must not cost a channel, member or subscription slot
+          let lonely = !view.members.values().any(|m| m.contains(&me));
+          env.ev_ok = true;
+          env.down = false;
+          self.harmless_quiet = false;
+          if lonely && matches!(r, Req::Join { ob: None, .. }) && self.rng.chance(1, 2) {
+            if self.rng.chance(1, 2) {
+              env.ev_ok = false;
+            } else {
+              env.down = true;
+            }
+            self.harmless_quiet = true;
+          }
+        }
+        r
+      },
       _ => self.authed_req(&mut env, view, c.user.as_deref().unwrap_or("")),
     };
     (Op::Recv(k, req), env)
@@ -971,6 +995,10 @@ pub async fn run_case(cfg: SrvCfg, rng: Rng, max_steps: usize, mode: &str) -> (C
       g.plan_name_reuse_after_failed_cleanup();
     }
   }
+  if mode == "drift" {
+    // churn-style traffic under tight limits with many failing / rolled-back operations: do the limits drift?
+    g.mode = "drift".into();
+  }
   if mode == "kf_cleanup" {
     g.plan_kf_cleanup();
   }
@@ -1042,7 +1070,7 @@ pub async fn run_case(cfg: SrvCfg, rng: Rng, max_steps: usize, mode: &str) -> (C
     }
     // without visible hand-over events the owner oracle is blind: end the history here
     // (a scripted prologue goes on: it is written so that the successor is the only remaining member)
-    if env.quiet() && g.plan.is_empty() && !g.mode.starts_with("kf_") && (closed_any || matches!(op, Op::Close(_) | Op::Recv(_, Req::Leave { .. }))) {
+    if env.quiet() && !g.harmless_quiet && g.plan.is_empty() && !g.mode.starts_with("kf_") && (closed_any || matches!(op, Op::Close(_) | Op::Recv(_, Req::Leave { .. }))) {
       break;
     }
   }
@@ -1071,6 +1099,13 @@ pub fn scenario_cfg(rng: &mut Rng, mode: &str) -> SrvCfg {
   }
   if mode == "kf_cleanup" {
     cfg = SrvCfg::default();
+    cfg.modulator = Some(vec![Operation::ForwardEvent]);
+  }
+  if mode == "drift" {
+    cfg.max_channels = *rng.pick(&[1u32, 1, 2]);
+    cfg.max_clients = *rng.pick(&[1u32, 2, 3]);
+    cfg.max_subs = *rng.pick(&[1u32, 2]);
+    cfg.max_payload = 64;
     cfg.modulator = Some(vec![Operation::ForwardEvent]);
   }
   if mode == "churn" {
